@@ -28,6 +28,20 @@ def rand_script(rng):
     up = dict(((s, d), "none") for s in ("me", "other") for d in dirs)
     script = []
     replied = False
+    if rng.random() < 0.12:
+        # Tor refuses the creating command (before announcing anything for the service); other services go on
+        for _ in range(rng.randint(0, 3)):
+            d = rng.choice(dirs)
+            if up[("other", d)] == "none":
+                up[("other", d)] = "started"
+                script.append(dict(a="Upload", s="other", d=d))
+        script.append(dict(a="Refuse"))
+        for _ in range(rng.randint(0, 3)):
+            d = rng.choice(dirs)
+            if up[("other", d)] == "started":
+                up[("other", d)] = "ok"
+                script.append(dict(a="Uploaded", s="other", d=d))
+        return script
     if rng.random() < 0.7:
         script.append(dict(a="Reply"))
         replied = True
